@@ -503,6 +503,34 @@ pub enum SortedCaseSensitive {
     ABc,
 }
 
+// explicit discriminants are plain Rust and say nothing about the wire: constructor ids stay the declaration positions
+// (or the sorted positions), also when a discriminant coincides with another variant's position
+#[derive(BinaryCodec)]
+pub enum WithDiscriminants {
+    Low = 1,
+    Medium,
+    High = 7,
+    Off = 0,
+}
+
+#[derive(BinaryCodec)]
+#[sorted_constructors]
+pub enum SortedWithDiscriminants {
+    Zulu = 0,
+    Alpha = 1,
+    Mike = 2,
+}
+
+// a field that was added with one default and later made transient with another: the transient default is what a
+// reader builds (the FieldAdded default is for data written before the field existed)
+#[derive(BinaryCodec)]
+#[evolution(FieldAdded("t", 5u32), FieldMadeTransient("t"))]
+pub struct TransientAfterAddedDefault {
+    pub a: u8,
+    #[transient(7u32)]
+    pub t: u32,
+}
+
 // ------------------------------------------------------------------------------------------------ spellings of Option
 // `Option` is recognised through parentheses and through the invisible groups a macro_rules `$t:ty` fragment puts around it
 #[derive(BinaryCodec)]
